@@ -2,7 +2,7 @@
    Print Assumptions. *)
 From Coq Require Import ZArith NArith List Bool Sorted.
 From Centro Require Import Base.GraphC15 Model.LabelGraph Spec.LabelGraph
-  Proofs.ColorC15 Proofs.DfsC15 Proofs.AccC15 Proofs.EulerC15 Proofs.RelabelC15 Proofs.NeighborsC15 Proofs.EulerQuadC15 Proofs.EulerStepC15 Proofs.AccCertC15 Proofs.SpecC15.
+  Proofs.ColorC15 Proofs.DfsC15 Proofs.AccC15 Proofs.EulerC15 Proofs.RelabelC15 Proofs.NeighborsC15 Proofs.EulerQuadC15 Proofs.EulerStepC15 Proofs.AccCertC15 Proofs.SpecC15 Proofs.EulerTopoC15 Spec.EulerReduceC15 Proofs.EulerSearchC15.
 Import ListNotations.
 
 (* ---- all_connected_components / _all_connected_components (Full, including termination) ----
@@ -238,3 +238,52 @@ Theorem C15_acc_cert_sound : forall i j labels par eidx dep rep : list N,
     (nth u labels 0%N = nth w labels 0%N <-> uconn (combine i j) (N.of_nat u) (N.of_nat w)).
 Proof. exact acc_cert_sound. Qed.
 Print Assumptions C15_acc_cert_sound.
+
+(* ================================================================ euler_number = components - holes,
+   topologically (round 3; C05's Base/Topo.v, Base/Skel.v, Proofs/TopoCounts.v are IMPORTED) *)
+
+(* Finite-256: the (8,4)-simple predicate used for the quad count is C05's simple_ok *)
+Theorem C15_simple8_is_simple_ok : forall n00 n01 n02 n10 n12 n20 n21 n22,
+  simple8 n00 n01 n02 n10 n12 n20 n21 n22 = Skel.simple_ok [n00; n01; n02; n10; true; n12; n20; n21; n22].
+Proof. exact simple8_is_simple_ok. Qed.
+Print Assumptions C15_simple8_is_simple_ok.
+
+(* euler_reducible_topological (Full, no hypotheses about topology): for every label image whose
+   label-l pixel set is emptied by (a) deleting (8,4)-simple pixels, (b) filling pixels that are simple
+   once filled, (c) deleting isolated points, (d) closing one-pixel holes (Reduces2, k = #(c) - #(d)),
+   and for EVERY complete irredundant list of representatives fgl of the 8-components of the set and
+   bgl of the 4-components of its complement IN THE WHOLE PLANE (Spec.TopoCheck.comp_reps):
+   4 W = 4 * (|fgl| - (|bgl| - 1)) = 4 * (components - holes), and that number is k. *)
+Theorem C15_euler_reducible_topological : forall l : Z, l <> 0 -> forall im k, Reduces2 l im k -> rect im ->
+  forall fgl bgl, TopoCheck.comp_reps Topo.adj8 (Topo.fg (X_of im l)) fgl ->
+                  TopoCheck.comp_reps Topo.adj4 (Topo.bg (X_of im l)) bgl ->
+  euler4 im l = 4 * topo_count fgl bgl /\ topo_count fgl bgl = k.
+Proof. exact euler_reducible_topological. Qed.
+Print Assumptions C15_euler_reducible_topological.
+
+(* every reduction by deletions only (round 2) is such a reduction *)
+Theorem C15_Reduces_Reduces2 : forall l im k, Reduces l im k -> Reduces2 l im k.
+Proof. exact Reduces_Reduces2. Qed.
+Print Assumptions C15_Reduces_Reduces2.
+
+(* the certificate search that the harness runs on every euler_number case: when it returns k, the
+   model's 4 W is 4 k and k is components - holes for every pair of representative lists (Full) *)
+Theorem C15_reduce_label_certifies : forall (im : image) (l k : Z), rect im -> l <> 0 -> reduce_label im l = Some k ->
+  euler4 im l = 4 * k /\
+  forall fgl bgl, TopoCheck.comp_reps Topo.adj8 (Topo.fg (X_of im l)) fgl ->
+                  TopoCheck.comp_reps Topo.adj4 (Topo.bg (X_of im l)) bgl -> topo_count fgl bgl = k.
+Proof. exact reduce_label_certifies. Qed.
+Print Assumptions C15_reduce_label_certifies.
+
+(* which images are covered - Finite: every non-empty label image up to 3x3 over {0,1,2} and every binary
+   image of the shapes 1x4..3x4, 4x1..4x3, 1x5, 2x5, 5x1, 5x2 reduces to the empty image by the four moves.
+   C15_euler_is_components_minus_holes stays _partial in general: missing is the global lemma "every finite
+   pixel set is Reduces2-reducible"; the class covered is exactly Reduces2 (deletions of simple pixels and
+   isolated points, simple fillings, closing of one-pixel holes), membership is certified per case by
+   reduce_label (evidence counts the certified share). *)
+Theorem C15_small_images_reducible : forall h w im l, im <> [] ->
+  (In (h, w) shapes3 /\ Forall (fun r => length r = w /\ Forall (fun v => In v [0; 1; 2]) r) im /\ In l [1; 2]) \/
+  (In (h, w) shapes4 /\ Forall (fun r => length r = w /\ Forall (fun v => In v [0; 1]) r) im /\ In l [1]) ->
+  length im = h -> exists k, Reduces2 l im k.
+Proof. exact small_images_reducible. Qed.
+Print Assumptions C15_small_images_reducible.
